@@ -1212,7 +1212,8 @@ class DocutilsRenderer(RendererProtocol):
         if isinstance(token.content, str):
             try:
                 data = yaml.safe_load(token.content)
-            except yaml.YAMLError:
+            except Exception:
+                # note YAML constructors can also raise e.g. a ValueError (invalid date)
                 self.create_warning(
                     "Malformed YAML",
                     MystWarnings.MD_TOPMATTER,
@@ -1293,7 +1294,8 @@ class DocutilsRenderer(RendererProtocol):
 
         for key, value in data.items():
             if not isinstance(value, str | int | float | date | datetime):
-                value = json.dumps(value)
+                # note YAML can produce values that are not JSON serializable, e.g. dates
+                value = json.dumps(value, default=str)
             value = str(value)
             body = nodes.paragraph()
             body.source, body.line = self.document["source"], line
